@@ -687,6 +687,13 @@ def regenerate():
     except Exception as e:  # noqa
         res['errors'].append(f"Flow: {type(e).__name__}: {e}")
     try:
+        import worklist_gen
+        txt, errs = worklist_gen.gen_worklist()
+        res['errors'] += [f"Worklist: {x}" for x in errs]
+        if write_if_changed(os.path.join(GEN, 'Worklist.lean'), txt): res['changed'].append('Worklist.lean')
+    except Exception as e:  # noqa
+        res['errors'].append(f"Worklist: {type(e).__name__}: {e}")
+    try:
         import asserted_gen
         txt, errs = asserted_gen.gen_asserted()
         res['errors'] += [f"Asserted: {x}" for x in errs]
